@@ -45,6 +45,13 @@ class Ctx:
     def ob(self, rule, construct, ok, detail="", what=None, loc=None, data=None):
         """Record one obligation. ok: True (discharged), False (violated),
         None (undecided -> analysis regression)."""
+        if ok is None and "identically zero on this region" in (detail or ""):
+            # the lifter met `x / 0` with a divisor that is zero for every input of the region the
+            # rule evaluates (legitimate inputs by construction): compiled code raises
+            # ZeroDivisionError there, array code yields inf / NaN - a verdict, not a gap
+            ok = False
+            what = (f"{detail}: on this legitimate input the code divides by a quantity that is exactly "
+                    "zero (ZeroDivisionError in compiled code, inf / NaN in array code)")
         verdict = "ok" if ok is True else ("VIOLATED" if ok is False else "UNDECIDED")
         rec = dict(rule=rule, construct=construct, verdict=verdict)
         if detail:
